@@ -16,8 +16,35 @@ CLASS = 'LatexContextDb'
 
 KINDS = {'macros': 'M', 'environments': 'E', 'specials': 'S'}
 KIND_WORDS = [('macro', 'M'), ('environment', 'E'), ('special', 'S')]
-STATE_FIELDS = ('category_list', 'd', 'lookup_chain_maps', 'unknown_macro_spec',
-                'unknown_environment_spec', 'unknown_specials_spec', 'frozen')
+BASE_STATE_FIELDS = ('category_list', 'd', 'lookup_chain_maps', 'unknown_macro_spec',
+                     'unknown_environment_spec', 'unknown_specials_spec', 'frozen')
+# + every attribute a method answers from (return self.X[..] / self.X.get(..)): computed per run
+STATE_FIELDS = list(BASE_STATE_FIELDS)
+
+
+def _answer_sources(meths):
+    """attributes of the database from which some method hands out an answer: a value read by
+    subscript or .get() from self.<attr> reaches a return statement (directly or through a local)"""
+    out = set()
+    for name, fn in meths.items():
+        reads = {}
+        for st in iter_own(fn):
+            if isinstance(st, ast.Assign) and len(st.targets) == 1 and isinstance(st.targets[0], ast.Name):
+                reads.setdefault(st.targets[0].id, []).append(st.value)
+        for r in [x for x in iter_own(fn) if isinstance(x, ast.Return) and x.value is not None]:
+            exprs = [r.value] + [v for n_ in ast.walk(r.value) if isinstance(n_, ast.Name) for v in reads.get(n_.id, [])]
+            for e in exprs:
+                for x in ast.walk(e):
+                    base = None
+                    if isinstance(x, ast.Subscript) and isinstance(x.ctx, ast.Load):
+                        base = x.value
+                    elif isinstance(x, ast.Call) and call_name(x) == 'get' and call_recv(x) is not None:
+                        base = call_recv(x)
+                    while isinstance(base, ast.Subscript):
+                        base = base.value
+                    if base is not None and is_self_attr(base):
+                        out.add(base.attr)
+    return out
 MUTATORS = {'append', 'extend', 'insert', 'pop', 'remove', 'clear', 'sort', 'reverse',
             'update', 'setdefault', 'popitem', '__setitem__', '__delitem__'}
 
@@ -195,6 +222,8 @@ def run(ctx):
                     ctx.decide('M2c', ok, m, v, 'keyed by .%s from parameter %s' % (keyattr[k], k), why,
                                construct="%s: '%s': %s" % (name, k, short(v)))
 
+    STATE_FIELDS[:] = list(BASE_STATE_FIELDS) + sorted(_answer_sources(meths) - set(BASE_STATE_FIELDS))
+    ctx.analysed['state_fields'] = list(STATE_FIELDS)
     # ---------------------------------------------------------------- M3
     # exempt: __init__, freeze, and private helpers whose every call site in the class is in an
     # exempt method or in a method that has already passed its own frozen guard at that point
@@ -334,9 +363,12 @@ def run(ctx):
                                                          'set_unknown_specials_spec'):
                 return True
         return False
-    for name, fn in sorted(meths.items()):
+    for name, fn0 in sorted(meths.items()):
+        fn = symex.inline_stmt_helpers(fn0, meths)     # guards moved into a value-less helper are followed
         if name == '__init__' or not any(isinstance(x, ast.Raise) and x.exc is not None for x in iter_own(fn)):
             continue
+        if fn0 is not fn and not any(_writes_self(st) for st in ast.walk(fn0) if isinstance(st, ast.stmt)):
+            continue            # the helper itself (it only raises)
         if not any(_writes_self(st) for st in ast.walk(fn) if isinstance(st, ast.stmt)):
             continue
         try:
@@ -722,6 +754,16 @@ def _frozen_guard_before(fn, node):
         if isinstance(st, ast.If) and is_self_attr(st.test, 'frozen') and st.body and \
                 isinstance(st.body[0], ast.Raise) and not st.orelse:
             return True
+        # the same guard moved into a helper method called as a statement: self._check_not_frozen()
+        if isinstance(st, ast.Expr) and isinstance(st.value, ast.Call) and is_self_attr(st.value.func) \
+                and not st.value.args and not st.value.keywords:
+            cls_ = [p_ for p_ in parents(fn) if isinstance(p_, ast.ClassDef)]
+            for h in (cls_[0].body if cls_ else []):
+                if isinstance(h, ast.FunctionDef) and h.name == st.value.func.attr:
+                    hb = [x for x in h.body if not (isinstance(x, ast.Expr) and isinstance(x.value, ast.Constant))]
+                    if hb and isinstance(hb[0], ast.If) and is_self_attr(hb[0].test, 'frozen') and hb[0].body \
+                            and isinstance(hb[0].body[0], ast.Raise) and not hb[0].orelse:
+                        return True
     return False
 
 
@@ -946,6 +988,16 @@ def _check_filtered(ctx, m, fn):
                     continue
                 pname = t.values[0].id
                 cmp_ = t.values[1]
+                if pname in want and len(cmp_.ops) == 1 and isinstance(cmp_.comparators[0], ast.Name) and \
+                        cmp_.comparators[0].id == pname and not (isinstance(cmp_.left, ast.Name) and cmp_.left.id == cat) \
+                        and ('wrong-operand', pname) not in seen:
+                    seen[('wrong-operand', pname)] = cs.node
+                    ctx.refuted('M4b', m, cs.node, 'the skip test for %s looks up %s, not the name of the category being '
+                                'visited (%s): a category whose name differs from that value (an automatically named '
+                                'one is looked up as None) can never be %s' % (
+                                    pname, short(cmp_.left, 60), cat, 'excluded' if pname.startswith('exclude') else 'kept'),
+                                construct='filtered_context: operand of the %s test' % pname)
+                    continue
                 if pname in want and len(cmp_.ops) == 1 and \
                         isinstance(cmp_.left, ast.Name) and cmp_.left.id == cat and \
                         isinstance(cmp_.comparators[0], ast.Name) and \
